@@ -94,18 +94,32 @@ ParityClauses ==
 \* basis node-wise equal or daughter-reversed daughters (reversed only at nodes whose interaction fixes a parity factor), in the
 \* canonical basis the same LS combination at every node - possibly after exchanging identical final-state particles.  Two unrelated
 \* chains under one coefficient would silently remove a degree of freedom from the model.
+\* premise: the parity factor is a function of the decay (parent, daughters, daughter projections up to reversing both) - true of
+\* every reaction a solver produces, not of every hand-built one (the library keys its partner map by the printed decay, so a
+\* decay with a parity factor in one topology and none in another couples the two)
+SameDecay(a, S, b, T) ==
+  /\ Part(a, S) = Part(b, T)
+  /\ Part(a, HelChild(TreeOf(a), S)) = Part(b, HelChild(TreeOf(b), T))
+  /\ Part(a, OppChild(TreeOf(a), S)) = Part(b, OppChild(TreeOf(b), T))
+  /\ LET x == Daughters(a, S)  y == Daughters(b, T) IN x = y \/ (x[1] = -y[1] /\ x[2] = -y[2])
+EtaIsFunctionOfDecay ==
+  \A i \in DOMAIN Rec.trs : \A j \in DOMAIN Rec.trs :
+     \A S \in Inner(TreeOf(Rec.trs[i])) : \A T \in Inner(TreeOf(Rec.trs[j])) :
+        SameDecay(Rec.trs[i], S, Rec.trs[j], T) => Eta(Rec.trs[i], S) = Eta(Rec.trs[j], T)
 SharingClauses ==
   \A i \in DOMAIN Rec.trs : \A j \in DOMAIN Rec.trs :
      (i < j /\ Rec.chains[i].found = 1 /\ Rec.chains[j].found = 1
         /\ Len(Rec.chains[i].coef) > 0 /\ Rec.chains[i].coef = Rec.chains[j].coef)
      => /\ Stat("shared-coefficient-pairs", 1)
         /\ Clause("coefficient-shared-only-by-related-chains",
-                  \E v \in PermVariants(Rec.trs[j]) :
+                  \* (the premise is evaluated only for a pair that is not related: it is the expensive part)
+                  \/ \E v \in PermVariants(Rec.trs[j]) :
                      /\ SameTreeAndParticles(Rec.trs[i], v)
                      /\ \A S \in Inner(TreeOf(Rec.trs[i])) :
                            IF Canonical THEN LSEqual(Rec.trs[i], v, S)
                            ELSE /\ NodeRelated(Rec.trs[i], v, S)
-                                /\ (NodeFlipped(Rec.trs[i], v, S) => Eta(Rec.trs[i], S) # 0),
+                                /\ (NodeFlipped(Rec.trs[i], v, S) => Eta(Rec.trs[i], S) # 0)
+                  \/ ~ EtaIsFunctionOfDecay,
                   <<i, j, Rec.chains[i].coef>>)
 
 \* ---- C01: closure -----------------------------------------------------------------------------
